@@ -418,6 +418,26 @@ def run_history(ctx, cap, templates, start_spec, route, names, impl_name, tags):
         if t.shape[0] == 0 or t.shape[1] == 0:
             ctx.count("history-reached-empty-table")
             break
+    # kernel level: the CSR walk of nonzero() against the Lean transcription, on the final table's own arrays
+    if t.shape[0] > 0 and t.shape[1] > 0:
+        csr = t.matrix_data.tocsr()
+        kreq = {"nonzero_kernel": {"cs": {"nMajor": int(csr.shape[0]), "nMinor": int(csr.shape[1]),
+                                         "indptr": [int(x) for x in csr.indptr], "indices": [int(x) for x in csr.indices],
+                                         "data": [core.frac(x) for x in csr.data]},
+                                  "obs_ids": [str(x) for x in t.ids(axis="observation")],
+                                  "samp_ids": [str(x) for x in t.ids()]}}
+        try:
+            real = [[str(a), str(b)] for a, b in t.nonzero()]
+        except Exception as e:
+            real = "error:" + core.err_name(e)
+        kr = ctx.driver.ask(kreq)
+        ctx.count("nonzero-kernel-cases")
+        if not csr.has_sorted_indices:
+            ctx.count("nonzero-kernel-unsorted-indices")
+        if kr.get("ok") != real:
+            ctx.diverge({"start": core.spec_obs(start_spec), "route": route, "ops": names, "impl": impl_name},
+                        "nonzero(): CSR walk differs from the kernel model (exact order)", list(tags) + [impl_name],
+                        detail={"model": kr, "impl": real, "request": kreq})
     for s in steps:
         if s["obs"].get("pairwise_obs") is None:
             s["obs"]["pairwise_obs"] = []
